@@ -884,3 +884,66 @@ Example C03_burst_coalesce_example :
       p_out s = [mk FileModified rp_df []] /\
       collapse (p_out s) = collapse (concat (contracts_of (cfgx true true) false rp_world ops)).
 Proof. exact burst_coalesce_example. Qed.
+
+(* ================================================================== a burst that CONTAINS directory operations: an arrival *)
+(* `mkdir p; <any sequence of mkdir / touch strictly below p>` ([below_op]; operations that fail are skipped) applied back to
+   back from a synchronised state, then one read, grouping, emission (the _recursive_simulate path: one kernel record, the
+   rest fabricated by the reader's walk).  SOUNDNESS: every delivered event is justified by an operation record of the burst
+   (a created event by the mkdir / touch of that very path, a DirModified by an operation in that directory).
+   Contract EQUALITY does NOT hold for this burst, not even up to collapse of the per-operation contracts taken in operation
+   order: the stream follows the WALK order, not the order of the operations (all sub-directories of a directory before its
+   files, a directory's content after all of its siblings - in the instance below R/d/g is reported before R/d/e/f although it
+   was created after it), so the DirModified events of different directories interleave differently; and a touch below p
+   contributes only FileCreated + the parent's DirModified - the FileOpened / FileClosed / second DirModified of its contract
+   never reach the kernel queue, the directory was not watched when they happened.  What holds instead is
+   this soundness statement together with completeness in the form of C01_burst_arrival_replay (every arrived entry has its
+   created event).  Hypotheses: recursive watch, p in scope, IN_CREATE in the mask, c_fix_simulate, no injected fault;
+   read_batch / delivered level. *)
+Require Import WD.Proofs.ReplayProofs WD.Proofs.BurstProofs WD.Proofs.BurstArrivalProofs.
+
+Theorem C03_burst_arrival_sound : forall C full, c_faults C = [] -> c_fix_simulate C = true ->
+  forall w k r p rest, RSync C w k r -> npath p -> c_recursive C = true -> scope C p ->
+  N.land IN_CREATE (c_mask C) <> 0%N -> Forall (below_op p) rest ->
+  forall w1, apply_op w (Mkdir p) = Some w1 ->
+  let KB := fst (burst_end k w (Mkdir p :: rest)) in let wn := snd (burst_end k w (Mkdir p :: rest)) in
+  exists r' k' raws, read_batch C (w_fs wn) (r, drainq KB, []) (k_queue KB) = Done (r', k', raws) /\ RSync C wn k' r' /\
+    forallb (justified (c_recursive C) (c_root C) (burst_recs w (Mkdir p :: rest))) (ReplayProofs.delivered C full wn raws) = true.
+Proof. exact arrival_sound. Qed.
+Print Assumptions C03_burst_arrival_sound.
+
+(* instance (world w0: /s/R watched and empty): mkdir R/d; mkdir R/d/e; touch R/d/e/f; touch R/d/g, one read: the eight
+   delivered events [ba_events] in walk order, each justified by one of the four records *)
+Example C03_burst_arrival_nonvacuous :
+  exists r0 k0, construct (cfgx true true) kinit (w_fs w0) = Some (r0, k0) /\
+    let KB := fst (burst_end k0 w0 (Mkdir ba_d :: ba_rest)) in let wn := snd (burst_end k0 w0 (Mkdir ba_d :: ba_rest)) in
+    exists r' k' raws, read_batch (cfgx true true) (w_fs wn) (r0, drainq KB, []) (k_queue KB) = Done (r', k', raws) /\
+      ReplayProofs.delivered (cfgx true true) false wn raws = ba_events /\
+      forallb (justified true pR (burst_recs w0 (Mkdir ba_d :: ba_rest))) ba_events = true /\
+      length (burst_recs w0 (Mkdir ba_d :: ba_rest)) = 4%nat /\
+      (forall x, alookup beqb x (replay true pR (tree_of true pR w0) ba_events) = alookup beqb x (tree_of true pR wn)).
+Proof. exact arrival_example_stream. Qed.
+
+(* the arrival burst on the Pipeline model: AOp (mkdir p); AOp ... (below p); ARead 1 (the one record); any ticks / queue_events
+   calls; the delay; queue_events until the buffer is empty ([burst_hist] with the cut [1]).  The run does not crash, every
+   queued event is justified (sound_along), the replay invariant of the accumulated stream is kept, the state is synchronised,
+   covered and idle again - so arrival bursts, file-level bursts and single blocks can alternate. *)
+Theorem C03_burst_arrival_pipeline : forall P, pc_filter P = None -> let C := pc_reader P in c_faults C = [] -> c_fix_simulate C = true ->
+  forall s p rest L recs t0,
+  RSync C (p_world s) (p_k s) (p_r s) -> buffer_idle (p_buf s) -> p_stopped s = false ->
+  (forall id, In id (map fst (p_tbl s)) -> (id < p_next s)%N) ->
+  npath p -> c_recursive C = true -> scope C p -> N.land IN_CREATE (c_mask C) <> 0%N -> Forall (below_op p) rest ->
+  forall w1, apply_op (p_world s) (Mkdir p) = Some w1 -> Forall tick_or_emit L ->
+  TInv (c_recursive C) (c_root C) (replay (c_recursive C) (c_root C) t0 (p_out s)) (p_world s) ->
+  exists nit s' obs, prun P s (burst_hist P (Mkdir p :: rest) [1%nat] L nit) [] = Done (s', obs) /\
+    sound_along P s recs (burst_hist P (Mkdir p :: rest) [1%nat] L nit) = true /\
+    p_world s' = snd (burst_end (p_k s) (p_world s) (Mkdir p :: rest)) /\
+    TInv (c_recursive C) (c_root C) (replay (c_recursive C) (c_root C) t0 (p_out s')) (p_world s') /\
+    RSync C (p_world s') (p_k s') (p_r s') /\ Cover C (w_fs (p_world s')) (p_k s') (p_r s') /\
+    buffer_idle (p_buf s') /\ p_stopped s' = false /\ (forall id, In id (map fst (p_tbl s')) -> (id < p_next s')%N).
+Proof. exact arrival_pipeline. Qed.
+Print Assumptions C03_burst_arrival_pipeline.
+
+Example C03_burst_arrival_pipeline_nonvacuous :
+  exists s0 s obs, pinit (Px true) w0 = Some s0 /\ prun (Px true) s0 ba_history [] = Done (s, obs) /\
+    p_out s = ba_events /\ sound_along (Px true) s0 [] ba_history = true /\ length (k_watches (p_k s)) = 3%nat.
+Proof. exact arrival_pipeline_example. Qed.
